@@ -169,7 +169,7 @@ def _install():
     _reg("element_at_or_default", "any", lambda c: A(c.rnd.randint(0, 2), 9))
     _reg("find", "any", lambda c: A(c.cb(lambda v, i, s: _i(v) == 0)))
     _reg("find_index", "any", lambda c: A(c.cb(lambda v, i, s: _i(v) == 0)))
-    _reg("materialize", "any", lambda c: A())
+    _reg("materialize", "any", lambda c: A(), "recover")      # turns an upstream error into an element: the pipeline goes on
     _reg("dematerialize", "notif", lambda c: A())
     _reg("as_observable", "any", lambda c: A())
     _reg("slice", "any", lambda c: A(c.rnd.choice([None, 0, 1, -1]), c.rnd.choice([None, 1, 2, -1]), c.rnd.choice([None, 1, 2])))
